@@ -1,21 +1,25 @@
 #!/bin/bash
-# Usage: seedtest.sh <Cxx> [check ids...]   (default: the property itself)
-# Applies /tmp/mut/out/<id>/patch.diff to /repo, confirms the pinned suite passes and
-# the demonstration fails, runs the checks, reverts, confirms the demonstration passes.
-id=$1; shift
+# Usage: seedtest.sh <dir with patch.diff and demo.*> <property id> [check ids...]
+# Seed testing WITHOUT touching /repo: makes a scratch worktree of /repo's HEAD,
+# applies the change there, confirms the pinned suite passes and the demonstration
+# fails with it, runs the checks against that tree (VERIF_REPO), reverts, confirms
+# the demonstration passes, removes the worktree.
+src=$(realpath "$1"); id=$2; shift 2
 checks=${@:-$id}
-src=/tmp/mut/out/$id
-cd /repo || exit 2
-git diff --quiet || { echo "/repo not clean"; exit 2; }
+tree=$(mktemp -d /tmp/seedtree.XXXXXX); rmdir "$tree"
+out=$(mktemp -d /tmp/seedout.XXXXXX)
+git -C /repo worktree add -q --detach "$tree" HEAD || exit 2
+trap 'git -C /repo worktree remove --force "$tree"; rm -rf "$out"' EXIT
+cd "$tree" || exit 2
 git apply "$src/patch.diff" || { echo "patch does not apply"; exit 2; }
 echo "== suite with change"
 /venv/bin/python -m pytest -q -p no:cacheprovider 2>&1 | grep -E "passed|failed" | tail -1
 demo=$(ls $src/demo.* | head -1)
-run_demo() { case "$demo" in *.py) (cd /repo && timeout 300 /venv/bin/python "$demo" >/tmp/seed_demo.out 2>&1);; *.sh) (cd /repo && timeout 600 bash "$demo" >/tmp/seed_demo.out 2>&1);; esac; echo $?; }
+run_demo() { case "$demo" in *.py) (cd "$tree" && PYTHONPATH="$tree" timeout 300 /venv/bin/python "$demo" >$out/demo.out 2>&1);; *.sh) (cd "$tree" && PYTHONPATH="$tree" timeout 600 bash "$demo" >$out/demo.out 2>&1);; esac; echo $?; }
 echo "== demo with change (expect non-zero): $(run_demo)"
 for c in $checks; do
   echo "== check $c with change"
-  (cd /verif && timeout 1500 ./check $c quick >/tmp/seed_check_$c.out 2>&1; echo "rc=$?"; grep -E "^VIOLATION|^KNOWN|MACHINERY" -A1 /tmp/seed_check_$c.out | head -4 | cut -c1-250)
+  (cd /verif && VERIF_REPO="$tree" VERIF_OUT="$out" timeout 1500 ./check $c quick >$out/check_$c.out 2>&1; echo "rc=$?"; grep -E "^VIOLATION|^KNOWN|MACHINERY" -A1 $out/check_$c.out | head -4 | cut -c1-250)
 done
-git checkout -- . && git status --short | head -2
+git apply -R "$src/patch.diff"
 echo "== demo without change (expect 0): $(run_demo)"
